@@ -725,6 +725,86 @@ def suite_fresh(ctx, d, pgpy, specs):
             ctx.fail('fresh-keys', 'public twin has another fingerprint', {'op': 'fresh', 'alg': alg, 'pkt': bytes(k._key.__bytearray__()).hex()})
 
 
+def suite_rsa_ids(ctx, d, pgpy, names):
+    """RSA key packets carrying the deprecated algorithm ids 2 (encrypt-only) and 3 (sign-only) beside 1, written by an independent
+    encoder from corpus key numbers: the fingerprint covers the octets as they are (RFC 4880 12.2), and they are re-exported as they are"""
+    from .keys import get
+    from pgpy.packet import Packet
+    for n in names:
+        key = get(n)
+        for pkt in packets_of_key(key)[:1]:
+            (stag, sbody), = split_packets(bytes(pkt.__bytearray__()))
+            (ptag, pbody), = split_packets(bytes(pkt.pubkey().__bytearray__()))
+            for alg in (1, 2, 3):
+                for created in ((0, 1136073600, 2 ** 32 - 1) if alg != 1 else (1136073600,)):
+                    for secret in (False, True):
+                        tag, body = (stag, sbody) if secret else (ptag, pbody)
+                        b2 = bytearray(body); b2[1:5] = created.to_bytes(4, 'big'); b2[5] = alg; b2 = bytes(b2)
+                        pb2 = bytearray(pbody); pb2[1:5] = created.to_bytes(4, 'big'); pb2[5] = alg; pb2 = bytes(pb2)
+                        raw = bytes([0xc0 | tag]) + (b'\xff' + len(b2).to_bytes(4, 'big')) + b2
+                        want = rfc_fp(pb2)
+                        case = {'op': 'rsaid', 'key': n, 'alg': alg, 'created': created, 'secret': secret, 'pkt': raw.hex()}
+                        ctx.case('rsa-alg-ids', (n, alg, created, secret), sample={'key': n, 'alg': alg, 'created': created, 'secret': secret})
+                        def obs():
+                            p = Packet(bytearray(raw))
+                            k = pgpy.PGPKey.from_blob(raw)[0]
+                            out = bytes(p.__bytearray__())
+                            return (str(p.fingerprint).lower(), str(k.fingerprint).lower(), str(k.pubkey.fingerprint).lower() if secret else str(k.fingerprint).lower(),
+                                    str(p.fingerprint.keyid).lower(), split_packets(out), split_packets(bytes(k)))
+                        with warnings.catch_warnings():
+                            warnings.simplefilter('ignore')
+                            o = outcome(obs)
+                        if o[0] != 'ok':
+                            ctx.fail('rsa-alg-ids', 'RSA key packet with algorithm id %d cannot be loaded / fingerprinted' % alg, dict(case, impl=repr(o)[:200])); continue
+                        fp1, fp2, fp3, kid, out, kout = o[1]
+                        if not (fp1 == fp2 == fp3 == want):
+                            ctx.fail('rsa-alg-ids', 'fingerprint is not SHA-1(0x99 || len || public body) of the key packet as received (algorithm id %d)' % alg,
+                                     dict(case, rfc=want, impl=[fp1, fp2, fp3]))
+                        if kid != want[-16:]:
+                            ctx.fail('rsa-alg-ids', 'key id is not the low 64 bits of the RFC fingerprint (algorithm id %d)' % alg, dict(case, rfc=want, impl=kid))
+                        if out != [(tag, b2)] or kout[:1] != [(tag, b2)]:
+                            ctx.fail('rsa-alg-ids', 'key packet with algorithm id %d is not re-exported with the octets it was read from' % alg, dict(case, out=out[0][1][:12].hex() if out else None))
+
+
+def suite_attach(ctx, d, pgpy, specs):
+    """a stand-alone key generated with an explicit (past) creation time keeps fingerprint and key id when it is attached as a subkey:
+    the value seen before add_subkey is the one in primary.subkeys, in the public twin and after export / import"""
+    from pgpy.constants import PubKeyAlgorithm as A, EllipticCurveOID as C, KeyFlags as F
+    for alg, size in specs:
+        for created_s in (86400 * 365 * 30, 1136073600):
+            created = datetime.fromtimestamp(created_s, timezone.utc)
+            with warnings.catch_warnings():
+                warnings.simplefilter('ignore')
+                o = outcome(lambda: (pgpy.PGPKey.new(A.EdDSA, C.Ed25519, created=created), pgpy.PGPKey.new(getattr(A, alg), getattr(C, size) if isinstance(size, str) else size, created=created)))
+                if o[0] != 'ok':
+                    ctx.skipped.append('attach %s/%s: %s' % (alg, size, o[1])); continue
+                prim, cand = o[1]
+                prim.add_uid(pgpy.PGPUID.new('Attach %s' % alg), usage={F.Sign, F.Certify}, created=created)
+                fp0, kid0 = str(cand.fingerprint).lower(), str(cand.fingerprint.keyid).lower()
+                m0 = check_packet(ctx, d, 'attach', cand._key, {'op': 'attach', 'alg': alg, 'size': str(size), 'stage': 'stand-alone'})
+                usage = {F.Sign} if alg in ('EdDSA', 'ECDSA', 'RSAEncryptOrSign', 'DSA') else {F.EncryptCommunications}
+                a = outcome(lambda: prim.add_subkey(cand, usage=usage, created=created))
+                case = {'op': 'attach', 'alg': alg, 'size': str(size), 'created': created_s, 'fp_before': fp0}
+                ctx.case('attach', (alg, str(size), created_s), sample=case)
+                if a[0] != 'ok':
+                    ctx.fail('attach', 'add_subkey raised', dict(case, impl=repr(a))); continue
+                def views():
+                    re = pgpy.PGPKey.from_blob(bytes(prim))[0]
+                    rp = pgpy.PGPKey.from_blob(str(prim.pubkey))[0]
+                    return {'subkeys entry': [(str(k).lower(), str(v.fingerprint).lower()) for k, v in prim.subkeys.items()],
+                            'public twin': [(str(k).lower(), str(v.fingerprint).lower()) for k, v in prim.pubkey.subkeys.items()],
+                            're-imported': [(str(k).lower(), str(v.fingerprint).lower()) for k, v in re.subkeys.items()],
+                            're-imported twin (armor)': [(str(k).lower(), str(v.fingerprint).lower()) for k, v in rp.subkeys.items()]}
+                v = outcome(views)
+                if v[0] != 'ok':
+                    ctx.fail('attach', 'key with the attached subkey cannot be exported / re-imported', dict(case, impl=repr(v)[:200])); continue
+                for where, got in v[1].items():
+                    if got != [(kid0, fp0)]:
+                        ctx.fail('attach', 'fingerprint / key id of a key changed when it was attached as a subkey (%s)' % where, dict(case, where=where, got=got))
+                for sk in prim.subkeys.values():
+                    check_packet(ctx, d, 'attach', sk._key, {'op': 'attach', 'alg': alg, 'size': str(size), 'stage': 'attached'})
+
+
 def suite_opaque(ctx, d, pgpy):
     """algorithm ids PGPy has no material class for (0, 21).  PUBLIC keys: full property (RFC fingerprint of the whole body, repair
     e03112d).  PRIVATE keys stay outside the property (whole stored material hashed, empty twin): the model predicts what the code does."""
@@ -820,6 +900,8 @@ def run(ctx):
         suite_kdf(ctx, d, pgpy, [n for n in names if n in ('ed25519', 'ed25519b', 'p256', 'p384', 'p521', 'secp256k1')])
         suite_fresh(ctx, d, pgpy, fresh)
         suite_opaque(ctx, d, pgpy)
+        suite_rsa_ids(ctx, d, pgpy, [n for n in names if n in (('rsa1024',) if q else ('rsa1024', 'rsa2048', 'rsa3072'))])
+        suite_attach(ctx, d, pgpy, [('EdDSA', 'Ed25519'), ('ECDH', 'Curve25519'), ('ECDSA', 'NIST_P256')] + ([] if q else [('ECDH', 'NIST_P384'), ('RSAEncryptOrSign', 2048)]))
         suite_gpg(ctx, d, pgpy, [n for n in names if n in ('ed25519', 'p256', 'rsa1024')] if q else names)
         ctx.notes.append('sha1 oracle calls answered by hashlib: %d' % d.oracle_calls)
     finally:
